@@ -312,6 +312,9 @@ class BlackFWhiteFprime(Contract):
         x, fp = c.pre['x_data'], c.pre['fprime_data']; o = c.outarr()
         return [('y[0]=f(x0), d y[d] = sum_k k x[k] fp[d-k]', c.forall(0, c.D, lambda j: o[j] == S.BFWF(x, fp, self.f0(c), j)))]
     def spec_instances(self, c, n): return S.bfwf_def(c, c.pre['x_data'], c.pre['fprime_data'], self.f0(c), n)
+    def spec_lemmas(self, c):
+        f0 = z3.Real('f0!caus')
+        return [S.causality_lemma2(c, 'BFWF', lambda a, b, n: S.BFWF(a, b, f0, n), lambda c_, a, b, n: S.bfwf_def(c_, a, b, f0, n), recursive=False)]
     def invariants(self):
         def inv0(c, d):
             x, fp = c.pre['x_data'], c.pre['fprime_data']; y = c.local('y_data')
